@@ -186,8 +186,16 @@ def parse_term(line):
     return None
 
 
+class FuncMap(dict):
+    """name -> Func, plus `const_lits`: last path segment of one-line const items
+    (`const path::NAME: T = const <literal>;`) -> literal operand text (None if ambiguous)"""
+    def __init__(self):
+        super().__init__()
+        self.const_lits = {}
+
+
 def parse_mir(path):
-    funcs = {}
+    funcs = FuncMap()
     cur = None
     blk = None
     pending = None
@@ -213,6 +221,10 @@ def parse_mir(path):
                 funcs.setdefault(cur.name, cur)
             elif line.startswith("const ") or line.startswith("static ") or line.startswith("promoted["):
                 # promoted / const bodies: parse like a function so their blocks are checked too
+                m1 = re.match(r"^const (?:.*::)?([A-Z][A-Z0-9_]*): [\w:<>]+ = (const [^;{]+);$", line)
+                if m1:
+                    nm, lit = m1.group(1), m1.group(2).strip()
+                    funcs.const_lits[nm] = lit if funcs.const_lits.get(nm, lit) == lit else None
                 m2 = re.match(r"^(?:const|static(?: mut)?) (.*): (.*?) = \{$", line)
                 if m2:
                     cur = Func("const " + m2.group(1), line)
